@@ -7,6 +7,7 @@ import (
 	"fmt"
 	"io"
 	"log"
+	"os"
 	"strings"
 	"sync"
 	"time"
@@ -298,6 +299,16 @@ func c09Perms(ctx *core.Ctx, dotu bool) core.Result {
 func c09Storm(ctx *core.Ctx, dotu bool, callers, ncalls int, delays bool) core.Result {
 	var res core.Result
 	msize := uint32(2048)
+	if callers == 8 && delays {
+		// this storm runs with every debug facility of the client on (messages formatted, printed to a discarded log
+		// and kept in a small ring)
+		go9p.DefaultDebuglevel, go9p.DefaultLogger = 15, go9p.NewLogger(64)
+		log.SetOutput(io.Discard)
+		defer func() {
+			go9p.DefaultDebuglevel, go9p.DefaultLogger = 0, nil
+			log.SetOutput(os.Stderr)
+		}()
+	}
 	s, err := connect(msize, dotu, false)
 	if err != nil {
 		res.Inconclusive = "c09: " + err.Error()
